@@ -931,6 +931,17 @@ func (g *jsGen) stmt() string {
 					return "if(!(" + c + "))" + work + "else{" + leave() + "}" + leave()
 				}
 			}
+			if g.inLoop > 0 && r.Bool() {
+				// braces that decide which `if` an `else` belongs to: the inner chain ends in an if without else whose arms
+				// cannot be turned into expressions (break / continue / a loop)
+				c2, c3 := g.expr(1), g.expr(1)
+				leave := r.Pick([]string{"break;", "continue;", "for(;;){break}", "{break}"})
+				inner := "if(" + c2 + ")h(" + g.nextSite() + ",1);else if(" + c3 + ")" + leave
+				if r.Chance(1, 3) {
+					inner = "if(" + c2 + ")" + leave + "else if(" + c3 + ")h(" + g.nextSite() + ",1);else if(" + g.expr(1) + ")" + leave
+				}
+				return "if(" + c + "){" + inner + "}else h(" + g.nextSite() + ",2);"
+			}
 			if g.inLoop > 0 {
 				work := "{h(" + g.nextSite() + "," + g.someVar(false) + ")}"
 				return "if(" + c + ")" + work + "else{break;}" + r.Pick([]string{"break;", "continue;"})
